@@ -8,9 +8,11 @@ Case forms
                  same law set: the second construction then moves it)
       side 0   : U[i].laws = L[j]          (j == nl -> None)
       side 1   : L[i].applies_to = U[j]    (j == nu -> None)
+      side 2   : L[i].applies_to = Universe()   a fresh universe that nothing but the law set refers to
   {"t":"attrs", "wl":..., "mixed":b, "cycles":b, "multipath":b, "multiverse":b}
 """
 import itertools
+import weakref
 
 from hypothesis import strategies as st
 
@@ -86,12 +88,12 @@ def strategy(tier):
             "ucls": ucls,
             "lcls": lcls,
             "init": [(x % (nl + 1)) - 1 for x in init[:nu]] + [-1] * (nu - len(init[:nu])),
-            "ops": [[s, i % (nu if s == 0 else nl), j % ((nl if s == 0 else nu) + 1)] for s, i, j in ops],
+            "ops": [[s, i % (nu if s == 0 else nl), (j % 2) if s == 2 else j % ((nl if s == 0 else nu) + 1)] for s, i, j in ops],
         },
         st.integers(2, 3),
         st.integers(2, 3),
         st.lists(st.integers(0, 3), max_size=3),
-        st.lists(st.tuples(st.integers(0, 1), st.integers(0, 5), st.integers(0, 11)), max_size=maxlen),
+        st.lists(st.tuples(st.sampled_from([0, 0, 0, 1, 1, 1, 2]), st.integers(0, 5), st.integers(0, 11)), max_size=maxlen),
         st.lists(st.integers(0, 1), min_size=1, max_size=3),
         st.lists(st.integers(0, 1), min_size=1, max_size=3),
     )
@@ -134,6 +136,8 @@ def _check_hist(case):
     lcls = case.get("lcls") or [0]
     UC = lambda k: (Universe, C.CountedUniverse)[ucls[k % len(ucls)] % 2]
     L = [(UniverseLaws, FalsyLaws)[lcls[k % len(lcls)] % 2]() for k in range(nl)] + [None]
+    temps = []          # weak references to universes only the law sets hold on to
+    temp_bound = {}     # id(law set) -> True while its applies_to is such a universe
     U = []
     all_laws = [x for x in L if x is not None]
     classes = set()
@@ -159,7 +163,14 @@ def _check_hist(case):
         for li, lw in enumerate(all_laws):
             tgt = lw.applies_to
             if tgt is not None and all(tgt is not u for u in U):
-                raise Violation("binding-dangling", f"{where}: L{li}.applies_to is not a pool universe")
+                # a universe the harness does not hold on to (side-2 op): it must point back
+                if not any(r() is tgt for r in temps):
+                    raise Violation("binding-dangling", f"{where}: L{li}.applies_to is not a known universe")
+                if tgt.laws is not lw:
+                    raise Violation("binding-asymmetric", f"{where}: L{li}.applies_to is a universe whose laws is not L{li}")
+            if temp_bound.get(id(lw)) and tgt is None:
+                raise Violation("binding-lost", f"{where}: L{li}.applies_to was set to a universe and now reads None although nothing re-assigned it")
+            del tgt
 
     for k, sel in enumerate(case["init"][:nu]):
         try:
@@ -182,7 +193,29 @@ def _check_hist(case):
     Ux = U + [None]
 
     for step, (side, i, j) in enumerate(case["ops"]):
+        if side == 2:
+            # L[i].applies_to = <a universe nobody else refers to>: the binding must stick
+            lw = L[i]
+            where = f"step {step} L{i}.applies_to = Universe()  (temporary, not retained by the caller)"
+            try:
+                lw.applies_to = UC(j)()
+            except Exception as e:  # noqa
+                raise Violation("assignment-raised", f"{where}: {e!r}")
+            tgt = lw.applies_to
+            require(tgt is not None, "binding-lost", f"{where}: L.applies_to reads None right after the assignment")
+            require(tgt.laws is lw, "assignment-post", f"{where}: the universe's laws is not L")
+            temps.append(weakref.ref(tgt))
+            del tgt
+            temp_bound[id(lw)] = True
+            classes.add("applies_to-a-universe-nobody-else-holds")
+            nt = True
+            inv(where)
+            continue
         where = f"step {step} {'U%d.laws = %s' % (i, 'None' if L[j] is None else 'L%d' % j) if side == 0 else 'L%d.applies_to = %s' % (i, 'None' if Ux[j] is None else 'U%d' % j)}"
+        if side == 0 and L[j] is not None:
+            temp_bound.pop(id(L[j]), None)
+        if side == 1:
+            temp_bound.pop(id(L[i]), None)
         if side == 0:
             u, new = U[i], L[j]
             if new is not None and new.applies_to is not None and new.applies_to is not u:
